@@ -103,12 +103,13 @@ impl AsyncHandle {
 
     fn write(&self, now: &mut DeferredNow, record: &Record) -> Result<(), std::io::Error> {
         let mut buffer = self.pop_buffer();
-        (self.format_function)(&mut buffer, now, record).inspect_err(|e| {
+        // (as in the synchronous modes: a failure is reported, what was formatted is written)
+        (self.format_function)(&mut buffer, now, record).unwrap_or_else(|e| {
             eprint_err(ErrorCode::Format, "formatting failed", &e);
-        })?;
-        buffer.write_all(self.line_ending).inspect_err(|e| {
+        });
+        buffer.write_all(self.line_ending).unwrap_or_else(|e| {
             eprint_err(ErrorCode::Write, "writing failed", &e);
-        })?;
+        });
         #[cfg(feature = "verif_hooks")]
         crate::verif_hooks::point("async.send", None).ok();
         self.sender
